@@ -6,8 +6,11 @@ import MuscleModel.Engines.Parse
 import MuscleModel.Engines.Pulse
 import MuscleModel.Engines.Queue
 import MuscleModel.Engines.RWMutex
+import MuscleModel.Engines.RefCount
 import MuscleModel.Engines.Srv
 import MuscleModel.Engines.Str
+import MuscleModel.Engines.ThreadPool
+import MuscleModel.Engines.ThreadQueue
 import MuscleModel.Engines.Tunnel
 import MuscleModel.Engines.Wildcard
 
@@ -31,8 +34,11 @@ def engines : List (String × Engine) := [
   ("pn", PulseEngine.engine),
   ("q", QueueEngine.engine),
   ("rw", RWEngine.engine),
+  ("rc", RCEngine.engine),
   ("srv", SrvEngine.engine),
   ("str", StrEngine.engine),
+  ("tp", TPEngine.engine),
+  ("thr", ThrEngine.engine),
   ("tun", TunEngine.engine),
   ("wc", WcEngine.engine)
 ]
